@@ -68,3 +68,13 @@ Definition check_adf11_install (t : adf11_type) (model : res table) (pw readback
 (* the Coq writer model reproduces the records of the file actually used *)
 Definition check_writer (per_line : nat) (fields : list str) (file_lines : list str) : bool :=
   forallb2 streqb (write_values per_line fields) file_lines.
+
+(* ADF15 thermal-CX blocks read back from the repository (3-D) against the model's parse of the file *)
+Definition check_thermalcx (charge : Z) (model : res table) (readback : table) : bool :=
+  match model with Ok t => table_eqv (thermalcx_table charge t) readback | Err _ => false end.
+
+Definition located_eqb (a b : located) : bool :=
+  match a, b with InAdasPath, InAdasPath | InCache, InCache | Download, Download | NotLocated, NotLocated => true | _, _ => false end.
+(* the probed behaviour of _locate_adas_file on all sixteen situations *)
+Definition check_locate (obs : list (bool * bool * bool * bool * located)) : bool :=
+  forallb (fun o => let '(a, b, c, d, r) := o in located_eqb (locate a b c d) r) obs && Nat.eqb (List.length obs) 16.
